@@ -8,6 +8,10 @@ to a return passes a reset of each lazily derived field (`take()`, `set(..)`, an
 A reset on some paths only (say, only when the table grows) leaves the derived value stale on the others, and readers that
 go through it disagree with readers that go through the source fields.
 
+The same holds for a field that is derived *eagerly*: a struct literal that initialises field F with a function (`len()`,
+`count()`, `max()`, a hash, any call) of the very value it stores in field G remembers a fact about G; every `&mut self`
+method that changes G must store F again on every path (`eager_fields`).
+
 The rule ranges over every struct of the crate.  Today no struct has such a field, so the expected instance count is zero
 (the self-test carries the positive example); it was written because a change of the seventh seeding round added one.
 """
@@ -41,10 +45,56 @@ def _field_of_self(t, names):
     return None
 
 
+def eager_fields(prog):
+    """{adt: {F: [G, ..]}} — F is initialised, in some struct literal of the crate, with a call applied to (a term containing)
+    the value the same literal stores in G"""
+    from .fd import key_of
+    out = {}
+    for fn in prog.lib_fns:
+        if "::test" in fn.npath or fn.name.startswith("test") or \
+                not any(s_["k"] == "assign" and s_["rv"]["k"] == "agg" for b in fn.blocks for s_ in b["stmts"]):
+            continue
+        for bb, t, line in fn.terms.aggs:
+            if t[1] != "adt" or len(t) < 6 or not t[5] or len(t[4]) < 2:
+                continue
+            a = prog.adts.get(t[2])
+            if not a or a.get("kind") != "Struct":
+                continue
+            for j, fj in enumerate(t[4]):
+                f0 = strip(fj)
+                if not (isinstance(f0, tuple) and f0 and f0[0] == "call") or f0[1].name in ("clone", "new", "default", "to_vec", "to_owned", "into", "from"):
+                    continue
+                kj = key_of(fj)
+                for i, fi in enumerate(t[4]):
+                    if i == j:
+                        continue
+                    g0 = strip(fi)
+                    if not isinstance(g0, tuple) or not g0 or g0[0] in ("const", "constitem", "agg"):
+                        continue
+                    ki = key_of(fi)
+                    if len(ki) >= 4 and ki != kj and ki in kj:
+                        out.setdefault(t[2], {}).setdefault(t[5][j], [])
+                        if t[5][i] not in out[t[2]][t[5][j]]:
+                            out[t[2]][t[5][j]].append(t[5][i])
+    return out
+
+
 def run(prog):
     out = []
     lf = lazy_fields(prog)
+    for adt, pairs in sorted(eager_fields(prog).items()):
+        for F, Gs in sorted(pairs.items()):
+            lz, src = lf.get(adt, ([], []))
+            # handled by the same loop: F must be written again wherever one of its sources is
+            out += _check(prog, adt, [F], Gs, eager=True)
     for adt, (lazy, src) in sorted(lf.items()):
+        out += _check(prog, adt, lazy, src)
+    return out
+
+
+def _check(prog, adt, lazy, src, eager=False):
+    out = []
+    if True:
         for fn in prog.lib_fns:
             if fn.impl_self != adt or "{closure" in fn.npath or len(fn.locals) < 2:
                 continue
@@ -67,7 +117,7 @@ def run(prog):
             for lzf in lazy:
                 resets = {cs.bb for cs in te.calls if cs.callee.name in RESET and cs.args and _field_of_self(cs.args[0], [lzf])}
                 resets |= {st[0] for st in te.stores if _field_of_self(st[1], [lzf])}
-                key = "%s:DI:%s" % (fn.npath, lzf)
+                key = "%s:DI:%s%s" % (fn.npath, "eager:" if eager else "", lzf)
                 if whole:
                     out.append(inst("DI", key, OK, fn, None, "the whole value is replaced"))
                     continue
@@ -83,7 +133,7 @@ def run(prog):
                         bad = (f, line)
                         break
                 out.append(inst("DI", key, VIOLATION if bad else OK, fn, bad[1] if bad else None,
-                                ("%s writes `%s` (line %s) and can return without resetting the lazily derived `%s`%s: the value built "
+                                ("%s writes `%s` (line %s) and can return without resetting the derived `%s`%s: the value built "
                                  "from the old contents keeps being served" % (fn.name, bad[0], bad[1], lzf,
                                                                                 " (it is reset on other paths only)" if resets else ""))
                                 if bad else "every path that writes %s resets `%s`" % (sorted({w[1] for w in writes}), lzf)))
